@@ -276,3 +276,35 @@ package fun
 //@   option noframe
 //@   requires wf != nil
 //@   ensures waiter: closureof(result, "WaitChannel$1") && fresh(closurevar(result, "ch"))
+
+// Signal: the goroutine body runs the operation once and closes the signal
+// channel afterwards, also when the operation panics (deferred close).
+//@ func (Operation).Signal$1
+//@   props C15
+//@   option callbacks-may-panic
+//@   option closes-after out wf
+//@   requires wf != nil && out != nil && !closedch(out)
+//@   ensures closedch(out) && calls(wf) == old(calls(wf)) + 1
+//@   ensures-panic closedch(out)
+//@   panics when true
+
+// Limit(n) (limitExec): the counter moves only upwards, never past n, and only
+// under the mutex. A call executes op exactly when the counter it observes at
+// its decision point (under the mutex, or the lock-free fast path that sees
+// n) is below n, and then bumps it by one: so after c calls op has run
+// min(n, c) times, and executions never overlap. The cached result is written
+// only while the counter is below n: once a caller can take the fast path the
+// result is final ("thereafter returns the last result").
+//@ func limitExec$1
+//@   props C15
+//@   option old section
+//@   option atomic-rely aold <= anew && anew <= in
+//@   option atomic-stable-under mtx
+//@   option calls-under op mtx
+//@   option store-requires output atomicval(counter) < in
+//@   requires op != nil && counter != nil && mtx != nil && !held(mtx) && in > 0 && 0 <= atomicval(counter) && atomicval(counter) <= in
+//@   ensures !held(mtx) && atomicval(counter) <= in
+//@   ensures exec: old(atomicval(counter)) < in ==> calls(op) == old(calls(op)) + 1 && atomicval(counter) == old(atomicval(counter)) + 1
+//@   ensures skip: old(atomicval(counter)) >= in ==> calls(op) == old(calls(op)) && atomicval(counter) == old(atomicval(counter))
+//@   ensures result == output
+//@   modifies cell(output)
